@@ -21,6 +21,66 @@ pub mod interpose {
     include!("../interpose.rs");
 }
 
+/// What the caller configured on the socket it hands to a sink and what a sink has no business changing: the
+/// blocking mode and the send / receive timeouts decide whether a send waits, fails or gives up. Read through a
+/// dup()ed descriptor (same open file description) so that it can still be read after the sink has gone.
+#[derive(Clone, Debug, PartialEq)]
+struct SockMode {
+    nonblocking: bool,
+    send_timeout: (i64, i64),
+    recv_timeout: (i64, i64),
+}
+
+struct ModeProbe {
+    fd: i32,
+    at_hand_over: SockMode,
+}
+
+extern "C" {
+    fn dup(fd: i32) -> i32;
+    fn close(fd: i32) -> i32;
+    fn fcntl(fd: i32, cmd: i32, ...) -> i32;
+    fn getsockopt(fd: i32, level: i32, name: i32, val: *mut u8, len: *mut u32) -> i32;
+}
+
+fn sock_mode(fd: i32) -> SockMode {
+    const F_GETFL: i32 = 3;
+    const O_NONBLOCK: i32 = 0o4000;
+    const SOL_SOCKET: i32 = 1;
+    const SO_RCVTIMEO: i32 = 20;
+    const SO_SNDTIMEO: i32 = 21;
+    let fl = unsafe { fcntl(fd, F_GETFL) };
+    let tv = |name: i32| -> (i64, i64) {
+        let mut v = [0i64; 2];
+        let mut l = 16u32;
+        unsafe { getsockopt(fd, SOL_SOCKET, name, v.as_mut_ptr() as *mut u8, &mut l) };
+        (v[0], v[1])
+    };
+    SockMode { nonblocking: fl >= 0 && fl & O_NONBLOCK != 0, send_timeout: tv(SO_SNDTIMEO), recv_timeout: tv(SO_RCVTIMEO) }
+}
+
+impl ModeProbe {
+    fn new(fd: i32) -> ModeProbe {
+        let d = unsafe { dup(fd) };
+        ModeProbe { fd: d, at_hand_over: sock_mode(d) }
+    }
+    /// None if the mode is still what the caller set.
+    fn changed(&self) -> Option<String> {
+        let now = sock_mode(self.fd);
+        if now == self.at_hand_over {
+            None
+        } else {
+            Some(format!("socket handed over as {:?} is now {:?}", self.at_hand_over, now))
+        }
+    }
+}
+
+impl Drop for ModeProbe {
+    fn drop(&mut self) {
+        unsafe { close(self.fd) };
+    }
+}
+
 const EAGAIN: i32 = 11;
 const ENOBUFS: i32 = 105;
 const ECONNREFUSED: i32 = 111;
@@ -139,11 +199,13 @@ fn case_unbuffered(cx: &mut Cx, cs: u64) {
     let multi: Vec<SocketAddr> = vec![target_addr, decoy_addr];
     let sink: Box<dyn MetricSink>;
     let fd;
+    let probe;
     let label;
     if udp {
         let sock = UdpSocket::bind("127.0.0.1:0").unwrap();
         sock.set_nonblocking(nonblocking).unwrap();
         fd = sock.as_raw_fd();
+        probe = ModeProbe::new(fd);
         let made = if r.chance(1, 2) { UdpMetricSink::from(&multi[..], sock) } else { UdpMetricSink::from(target_addr, sock) };
         sink = Box::new(made.expect("UdpMetricSink::from"));
         label = "UdpMetricSink";
@@ -151,8 +213,14 @@ fn case_unbuffered(cx: &mut Cx, cs: u64) {
         let sock = UnixDatagram::unbound().unwrap();
         sock.set_nonblocking(nonblocking).unwrap();
         fd = sock.as_raw_fd();
+        probe = ModeProbe::new(fd);
         sink = Box::new(UnixMetricSink::from(&unix_path, sock));
         label = "UnixMetricSink";
+    }
+    cx.rep.obs("socket_mode_probes", 1);
+    if let Some(d) = probe.changed() {
+        cx.rep.obs("socket_mode_changes_seen", 1);
+        cx.violation("C13", "socket-left-as-configured", "socket-mode-changed", format!("[{}] after constructing the sink: {}", label, d), jobj! {"sink" => label}, cs);
     }
     let mut buf = vec![0u8; 70000];
     for k in 0..n {
@@ -257,6 +325,10 @@ fn case_unbuffered(cx: &mut Cx, cs: u64) {
         }
     }
     drop(sink);
+    if let Some(d) = probe.changed() {
+        cx.rep.obs("socket_mode_changes_seen", 1);
+        cx.violation("C13", "socket-left-as-configured", "socket-mode-changed", format!("[{}] after the sink was dropped: {}", label, d), jobj! {"sink" => label}, cs);
+    }
     if let Some(c) = old_cwd {
         let _ = std::env::set_current_dir(c);
     }
@@ -333,10 +405,12 @@ fn case_buffered(cx: &mut Cx, cs: u64) {
     }
     let sink: Box<dyn MetricSink>;
     let fd;
+    let probe;
     let label;
     if udp {
         let sock = UdpSocket::bind("127.0.0.1:0").unwrap();
         fd = sock.as_raw_fd();
+        probe = ModeProbe::new(fd);
         sink = Box::new(if default_cap { BufferedUdpMetricSink::from(udp_recv.local_addr().unwrap(), sock).unwrap() } else { BufferedUdpMetricSink::with_capacity(udp_recv.local_addr().unwrap(), sock, cap).unwrap() });
         label = if default_cap { "W3-udp-default-capacity" } else { "W3-udp" };
     } else {
@@ -345,8 +419,14 @@ fn case_buffered(cx: &mut Cx, cs: u64) {
             sock.set_nonblocking(true).unwrap();
         }
         fd = sock.as_raw_fd();
+        probe = ModeProbe::new(fd);
         sink = Box::new(if default_cap { BufferedUnixMetricSink::from(&unix_path, sock) } else { BufferedUnixMetricSink::with_capacity(&unix_path, sock, cap) });
         label = if slow_server { "W4-unix-slow-server" } else if default_cap { "W4-unix-default-capacity" } else { "W4-unix" };
+    }
+    cx.rep.obs("socket_mode_probes", 1);
+    if let Some(d) = probe.changed() {
+        cx.rep.obs("socket_mode_changes_seen", 1);
+        cx.violation("C13", "socket-left-as-configured", "socket-mode-changed", format!("[{}] after constructing the sink: {}", label, d), jobj! {"sink" => label}, cs);
     }
     let nops = r.range(5, 70) as usize;
     let mut steps: Vec<Step> = Vec::new();
@@ -421,7 +501,13 @@ fn case_buffered(cx: &mut Cx, cs: u64) {
                 }
                 s
             } else {
-                format!("m{}.{}", k, "q".repeat(len)).chars().take(len).collect::<String>()
+                let mut s = format!("m{}.{}", k, "q".repeat(len)).chars().take(len).collect::<String>();
+                // the metric's own bytes may end with / contain the terminator
+                if len >= 1 && r.chance(1, 8) {
+                    let at = if r.chance(1, 2) { len - 1 } else { r.usize_below(len) };
+                    s.replace_range(at..at + 1, "\n");
+                }
+                s
             };
             let x = panics::guard(|| sink.emit(&m));
             let e = if let Ok(Err(e)) = &x { e.raw_os_error() } else { None };
@@ -452,6 +538,10 @@ fn case_buffered(cx: &mut Cx, cs: u64) {
     let recs: Vec<interpose::Rec> = interpose::since(mark).into_iter().filter(|x| x.fd == fd).collect();
     let attempts: Vec<Attempt> = recs.iter().map(|x| Attempt { bytes: Some(x.payload.clone()), out: if x.result >= 0 { AOut::Ok } else if x.errno == EINTR { AOut::Interrupted(x.seq) } else { AOut::Failed(x.seq) } }).collect();
     steps.push(Step { op: Op::Drop, attempts, res: if let Err(p) = dr { Res::Panicked(p) } else { Res::Dropped } });
+    if let Some(d) = probe.changed() {
+        cx.rep.obs("socket_mode_changes_seen", 1);
+        cx.violation("C13", "socket-left-as-configured", "socket-mode-changed", format!("[{}] after the sink was dropped: {}", label, d), jobj! {"sink" => label}, cs);
+    }
     if let Some(t) = slow_thread.take() {
         slow_stop.store(true, Ordering::SeqCst);
         let _ = t.join();
